@@ -83,6 +83,42 @@ def cli_restore(root, key_file, files, tag):
     return 'ok', None
 
 
+async def large_chunk_cases(root):
+    """chunks LARGER than any slice / block size used while hashing (1 - 2 MiB), damaged near their END, in an unencrypted repository
+    (where the content hash is the only check) with each hash family"""
+    out = []
+    for hi, hashing in enumerate((None, {'name': 'sha2', 'bits': 256}, {'name': 'sha3', 'bits': 256})):
+        src = root / f'lsrc{hi}'
+        src.mkdir()
+        p = src / 'large'
+        p.write_bytes(lib.content(777 + hi, 3 * 2 ** 20 + 11))
+        files = {str(p.resolve()): p.read_bytes()}
+        r = Repository(Local(root / f'lrepo{hi}'), concurrent=2, quiet=True, cache_directory=None)
+        settings = {'chunking': {'min_length': 3 * 2 ** 19, 'max_length': 2 ** 21}, 'encryption': None}
+        if hashing:
+            settings['hashing'] = dict(hashing)
+        with lib.quiet():
+            res = await r.init(settings=settings)
+            await r.unlock()
+            await r.snapshot(paths=[src])
+        await r.close()
+        chunks = sorted(q for q in (root / f'lrepo{hi}' / 'data').rglob('*') if q.is_file())
+        for ci, victim in enumerate(chunks):
+            original = victim.read_bytes()
+            for kind, damaged in (('flip_last_byte', original[:-1] + bytes([original[-1] ^ 1])), ('flip_at_1MiB_plus', original[:2 ** 20 + 5] + bytes([original[2 ** 20 + 5] ^ 1]) + original[2 ** 20 + 6:] if len(original) > 2 ** 20 + 6 else None),
+                                  ('tail_zeroed', original[:-4096] + bytes(4096))):
+                if damaged is None or damaged == original:
+                    continue
+                victim.write_bytes(damaged)
+                shutil.rmtree(root / 'work', ignore_errors=True)
+                shutil.copytree(root / f'lrepo{hi}', root / 'work')
+                victim.write_bytes(original)
+                st, detail = await try_restore(root, None, files, None, f'large_{hi}_{ci}_{kind}')
+                shutil.rmtree(root / f'out_large_{hi}_{ci}_{kind}', ignore_errors=True)
+                out.append((hashing, ci, len(original), kind, st, detail))
+    return out
+
+
 async def big_restore_cases(root, encrypted):
     """a file of ~200 chunks (far more than any window / batch / pool size of restore): one chunk damaged at a time, at several
     positions of the schedule; restore must fail or write the original bytes"""
@@ -216,6 +252,20 @@ def main():
                                      'detail': dict(detail, problem='restore reported success but wrote different content')})
                 else:
                     outcomes[st] += 1
+    with lib.scratch('vf_c04l_') as root:
+        try:
+            rows = asyncio.run(large_chunk_cases(root))
+        except Exception as e:
+            import traceback
+            rows = []
+            failures.append({'id': 'large_chunks', 'class': None, 'case': {}, 'detail': {'problem': 'harness exception', 'tb': traceback.format_exc()[-500:]}})
+        for hashing, ci, size, kind, st, detail in rows:
+            cases += 1
+            if st == 'WRONG':
+                failures.append({'id': f'large_{(hashing or {}).get("name", "default")}_{ci}_{kind}', 'class': None, 'case': {'hashing': hashing, 'chunk_size': size, 'corruption': kind, 'encrypted': False},
+                                 'detail': dict(detail, problem='restore reported success but wrote different content')})
+            else:
+                outcomes[st] += 1
     lib.emit({'status': 'ok', 'cases': cases, 'distinct': cases, 'failures': failures[:10], 'samples': samples, 'outcomes': outcomes,
               'exhaustive': False, 'reproduced': bool(failures)})
 
